@@ -69,6 +69,8 @@ func init() {
 		Funcs: []string{"tcell.(*CellBuffer).Size", "tcell.(*CellBuffer).GetContent", "tcell.(*CellBuffer).Dirty", "tcell.(*CellBuffer).SetDirty",
 			"tcell.(*CellBuffer).Invalidate", "tcell.(*CellBuffer).LockCell", "tcell.(*CellBuffer).UnlockCell", "tcell.(*CellBuffer).Fill",
 			"tcell.(*CellBuffer).SetContent", "tcell.(*CellBuffer).Resize", "tcell.cellWidth"},
+		Custom: []func(*PropRun){c08FillEnum},
+		Bounded: []string{"Fill: 'the column a replaced wide rune covered is dirty' is decided by a native enumeration of 3x2 buffers (the quantified clause is nonlinear in the buffer width and comes back unknown)"},
 		Trusted: []string{"go-runewidth RuneWidth is a total function with values 0..2 (assumed contract runeWidth)",
 			"reflect.DeepEqual on two []rune is element-wise equality plus equal nil-ness (intrinsic model)"},
 		Assume: []string{"Resize is called with w,h >= 0 (a negative size panics in make; precondition derived from the call sites)"},
@@ -1479,4 +1481,71 @@ func (w *c20Widget) Size() (int, int)               { return w.pw, w.ph }
 			g.ReplayDir = run.Eng.Repo + "/views"
 		}
 	}
+}
+
+// c08FillEnum: "changing a wide rune also dirties every column it covered", for Fill - the quantified clause over
+// y*w+x (nonlinear) comes back unknown from the solvers, so this clause of Fill is decided by a bounded native
+// enumeration of the real code: a 3x2 buffer, every assignment of {'a','b',wide} to the cells (wide runes only where a
+// second column exists), every cell marked clean, Fill with each of {'a','b',' ',wide}: every cell whose content
+// changed is dirty, and so is the column next to a wide rune that was replaced. Bounded, labelled as such.
+func c08FillEnum(run *PropRun) {
+	src := replayTest("tcell", nil, `
+	const W, H = 3, 2
+	runes := []rune{'a', 'b', 0x4e16}
+	fills := []rune{'a', 'b', ' ', 0x4e16, 0x754c}
+	n := 0
+	bad := ""
+	total := 1
+	for i := 0; i < W*H; i++ { total *= len(runes) }
+	for code := 0; code < total && bad == ""; code++ {
+		for _, fr := range fills {
+			cb := &CellBuffer{}
+			cb.Resize(W, H)
+			k := code
+			init := make([]rune, W*H)
+			for i := 0; i < W*H; i++ { init[i] = runes[k%len(runes)]; k /= len(runes) }
+			for y := 0; y < H; y++ {
+				for x := 0; x < W; x++ { cb.SetContent(x, y, init[y*W+x], nil, StyleDefault) }
+			}
+			for y := 0; y < H; y++ {
+				for x := 0; x < W; x++ { cb.SetDirty(x, y, false) }
+			}
+			cb.Fill(fr, StyleDefault)
+			n++
+			for y := 0; y < H && bad == ""; y++ {
+				for x := 0; x < W; x++ {
+					if init[y*W+x] != fr && !cb.Dirty(x, y) {
+						bad = fmt.Sprintf("cells %q clean, Fill(%q): cell (%d,%d) changed from %q and is not dirty", string(init), fr, x, y, init[y*W+x])
+						break
+					}
+					if init[y*W+x] == 0x4e16 && fr != 0x4e16 && x+1 < W && !cb.Dirty(x+1, y) {
+						bad = fmt.Sprintf("cells %q clean, Fill(%q): the wide rune at (%d,%d) was replaced and the column it covered, (%d,%d), is not dirty", string(init), fr, x, y, x+1, y)
+						break
+					}
+				}
+			}
+		}
+	}
+	if bad != "" { fmt.Println("FILLENUM FAIL " + bad); fail("%s", bad); return }
+	fmt.Printf("FILLENUM OK %d\n", n)`)
+	out, err := runOverlayTest(run.Eng.Repo, run.Eng.Repo, src, 300*time.Second, nil)
+	ok, detail := false, ""
+	for _, ln := range strings.Split(out, "\n") {
+		if strings.HasPrefix(ln, "FILLENUM OK ") {
+			ok = true
+			detail = strings.TrimPrefix(ln, "FILLENUM OK ") + " buffers"
+		}
+		if strings.HasPrefix(ln, "FILLENUM FAIL ") && detail == "" {
+			detail = strings.TrimPrefix(ln, "FILLENUM FAIL ")
+		}
+	}
+	if !ok && detail == "" {
+		run.Errors = append(run.Errors, fmt.Sprintf("Fill enumeration did not run: %v %s", err, tail(out, 400)))
+		return
+	}
+	g := run.AddObligation("CellBuffer.Fill/enumerated-changed-and-covered-columns-dirty", "table-bounded", BoolT(ok),
+		"on every 3x2 buffer over {'a','b',wide} with all cells clean, Fill with 'a','b',' ' or a wide rune leaves every cell whose rune changed dirty, and the column a replaced wide rune covered as well (native, exhaustive up to the bounds): "+detail)
+	g.ReplayDir = run.Eng.Repo
+	g.ReplayGo = src
+	run.Extra["fill_enumeration_buffers_bounded"] = 729 * 5
 }
